@@ -23,7 +23,13 @@ func (SimpleHashScheme) Block(h tmconsensus.Header) ([]byte, error) {
 
 	// Serialize the previous commit proof.
 	// First iterate over the voted blocks in order.
-	prevCommitBlocks := make([]string, 0, len(h.PrevCommitProof.Proofs))
+	// Each previous commit block is written under a printable key,
+	// but its signatures have to be looked up by the raw block hash.
+	type prevCommitBlock struct {
+		key string // Printable form, also the sort key.
+		raw string // Key into h.PrevCommitProof.Proofs.
+	}
+	prevCommitBlocks := make([]prevCommitBlock, 0, len(h.PrevCommitProof.Proofs))
 	for bh := range h.PrevCommitProof.Proofs {
 		var blockKey string
 		if bh == "" {
@@ -31,17 +37,19 @@ func (SimpleHashScheme) Block(h tmconsensus.Header) ([]byte, error) {
 		} else {
 			blockKey = fmt.Sprintf("%x", bh)
 		}
-		prevCommitBlocks = append(prevCommitBlocks, blockKey)
+		prevCommitBlocks = append(prevCommitBlocks, prevCommitBlock{key: blockKey, raw: bh})
 	}
-	sort.Strings(prevCommitBlocks)
+	sort.Slice(prevCommitBlocks, func(i, j int) bool {
+		return prevCommitBlocks[i].key < prevCommitBlocks[j].key
+	})
 
-	for i, blockHash := range prevCommitBlocks {
+	for i, block := range prevCommitBlocks {
 		if i > 0 {
 			buf.WriteString(", ")
 		}
-		buf.WriteString(blockHash)
+		buf.WriteString(block.key)
 		buf.WriteString(" => (")
-		sigs := h.PrevCommitProof.Proofs[blockHash]
+		sigs := h.PrevCommitProof.Proofs[block.raw]
 
 		sigStrings := make([]string, len(sigs))
 		for j, sig := range sigs {
